@@ -3,6 +3,7 @@ import GeosModel.Base.F64
 import GeosModel.Base.Kernel
 import GeosModel.Model.Kernel.Filter
 import GeosModel.Model.Kernel.RayCount
+import GeosModel.Model.Kernel.PolyLocate
 import GeosModel.Model.Kernel.SegSeg
 import GeosModel.Model.Kernel.CCW
 /-!
@@ -139,6 +140,54 @@ def ringLine (line : String) : String :=
     | _, _ => "bad-line"
   | _ => "bad-line"
 
+/-! ### point in polygon with holes -/
+
+/-- split a flat point list into rings of the given lengths -/
+def splitRings : List Nat → List Pt → Option (List (List Pt))
+  | [], [] => some []
+  | [], _ => none
+  | n :: ns, ps => if ps.length < n then none else (splitRings ns (ps.drop n)).map (fun r => ps.take n :: r)
+
+/-- read `n hex*2n` groups -/
+partial def ringGroups : List String → Option (List Nat × List String)
+  | [] => some ([], [])
+  | n :: rest =>
+    match n.toNat? with
+    | none => none
+    | some k =>
+      if rest.length < 2 * k then none else
+      match ringGroups (rest.drop (2 * k)) with
+      | none => none
+      | some (ns, hs) => some (k :: ns, rest.take (2 * k) ++ hs)
+
+def polyLine (line : String) : String :=
+  match Driver.tokens line with
+  | "Y" :: nr :: px :: py :: rest =>
+    match nr.toNat?, ringGroups rest with
+    | some nr, some (ns, hs) =>
+      if ns.length != nr || nr == 0 then "bad-line" else
+      match parseHexes (px :: py :: hs) with
+      | none => "bad-line"
+      | some bs =>
+        match F64.scaleAll bs with
+        | none => "nonfinite"
+        | some (_, ints) =>
+          match pts ints with
+          | p :: all =>
+            match splitRings ns all with
+            | none => "bad-line"
+            | some rings =>
+              let spec := locateInPolygon p rings
+              let model := PolyLocate.locatePointInPolygon p rings
+              let extra := if model == spec then "" else s!" MODEL-DIFFERS-FROM-SPEC:{locTok model}"
+              let s := locTok spec
+              let hit := if spec == .exterior then 0 else 1
+              let inn := if spec == .interior then 1 else 0
+              s!"{s} {s} {hit} {hit} {inn} {inn}" ++ extra
+          | [] => "bad-line"
+    | _, _ => "bad-line"
+  | _ => "bad-line"
+
 /-! ### segment / segment -/
 
 def hex64 (u : UInt64) : String :=
@@ -212,7 +261,7 @@ def ccwLine (line : String) : String :=
 
 def handlers : List (String × (String → String)) :=
   [ ("orient", orientGrid), ("orientarb", orientArb), ("orientx", orientExact), ("orientf", orientFilter),
-    ("ring", ringLine), ("segseg", segLine), ("ccw", ccwLine) ]
+    ("ring", ringLine), ("poly", polyLine), ("segseg", segLine), ("ccw", ccwLine) ]
 
 end Driver.C07
 
